@@ -179,6 +179,9 @@ type LoaderStep struct {
 	// watcher histories: the document is written to the configured file ("") or to a
 	// sibling in the same directory whose name is the configured name plus this suffix
 	Sibling string `json:"sibling,omitempty"`
+	// OldMtime: the file is put in place with a modification time older than that of every
+	// file loaded before (a restored backup, cp -p, rsync -a, a clock stepped back)
+	OldMtime bool `json:"old_mtime,omitempty"`
 	// NoEvent: the write is not followed by a change event (e.g. lost by the notifier)
 	NoEvent bool `json:"no_event,omitempty"`
 }
